@@ -20,6 +20,9 @@
 (*   listings whose backend yields items and THEN the error: the error     *)
 (*             arrives at every level (all laws above), after exactly the  *)
 (*             items of the pages before the failing one                   *)
+(*   origin cases: level 0 is what a real ociclient made of the answer of  *)
+(*             a non-conforming registry (status disagreeing with the      *)
+(*             table); every relaying hop answers the tabled status        *)
 (*   writer carriers (the backend's BlobWriter fails in Write, Close or    *)
 (*             Commit): status, code, detail, identity as above; the       *)
 (*             registry's message must survive as the end of the message   *)
@@ -57,6 +60,7 @@ Strip(m) == IF m = <<E>> THEN <<>> ELSE m
 Level0OK(t, o) ==
   /\ o.isErr
   /\ o.http = HasHttp(t)
+  /\ o.resp = (HasHttp(t) /\ FirstHttp(t).resp)
   /\ o.status = (IF HasHttp(t) THEN FirstHttp(t).status ELSE 0)
   /\ o.hasCode = HasErr(t)
   /\ o.code = (IF HasErr(t) THEN FirstErr(t).code ELSE "")
@@ -81,7 +85,7 @@ EffPage(e) == IF e.carrier = "Referrers" \/ e.page = 0 THEN 1000 ELSE e.page
 Upto(n) == [i \in 1..n |-> i]
 
 BodyLevelOK(t, ref, o, w, k, o1, w1, writer) ==
-  /\ o.isErr /\ o.http /\ o.status = Status(t)
+  /\ o.isErr /\ o.http /\ o.resp /\ o.status = Status(t)
   /\ o.hasCode /\ o.code = WireCode(t)
   /\ o.detail = WireDetail(t)
   /\ IsOK(t, ref, ToSet(o.is))
@@ -98,7 +102,7 @@ BodyLevelOK(t, ref, o, w, k, o1, w1, writer) ==
 
 HeadLevelOK(t, o, w) ==
   LET h == HeadErr(Status(t)) IN
-  /\ o.isErr /\ o.http /\ o.status = Status(t)
+  /\ o.isErr /\ o.http /\ o.resp /\ o.status = Status(t)
   /\ o.hasCode = HasErr(h)
   /\ o.code = (IF HasErr(h) THEN FirstErr(h).code ELSE "")
   /\ o.detail = "none"
@@ -114,7 +118,10 @@ CaseOK(e) ==
   /\ K >= 1 /\ Len(e.lv) = K + 1 /\ Len(e.wire) = K
   /\ e.nitems >= 0 /\ e.page >= 0
   /\ (e.carrier \notin ListCarriers) => (e.nitems = 0 /\ e.page = 0)
-  /\ Len(e.reached) >= 1 /\ ToSet(e.reached) = {BackendMethod(e.carrier)}
+  \* a non-conforming origin: the original is what ociclient made of a foreign registry's answer
+  /\ e.origin => /\ t.k = "http" /\ t.resp /\ Len(t.kids) = 1 /\ t.kids[1].k = "new"
+                 /\ e.carrier \notin HeadCarriers \cup WriterCarriers /\ e.nitems = 0
+  /\ Len(e.reached) >= 1 /\ ToSet(e.reached) = {IF e.origin THEN "origin" ELSE BackendMethod(e.carrier)}
   /\ (e.nitems = 0 /\ e.carrier \notin WriterCarriers) => Len(e.reached) = 1
   /\ Level0OK(t, e.lv[1]) /\ e.lv[1].items = <<>>
   \* a listing that fails after items: exactly the items of the pages before the failing one, then the error
